@@ -792,6 +792,47 @@ func runViewAPI(c *c14Case, obs *c14Obs) {
 	item := []byte("5\"hello\"")
 	filler := bytes.Repeat([]byte("Z"), 700)
 	var got func() string
+	if strings.HasPrefix(c.API, "Codec:") {
+		// what a codec / Formatter hands back must be the caller's own bytes: keep the slice as returned, then
+		// let the pooled encoders be reused for other messages (same and other goroutines), and look again
+		var bs []byte
+		plain := core.NewService()
+		switch c.API {
+		case "Codec:senc-value":
+			bs, _ = core.NewServiceCodec(core.WithSimple(c.Simple)).Encode([]interface{}{"hello-world", 12345}, core.NewServiceContext(plain))
+		case "Codec:senc-error":
+			bs, _ = core.NewServiceCodec(core.WithSimple(c.Simple)).Encode(errors.New("hello-world-error"), core.NewServiceContext(plain))
+		case "Codec:senc-panic":
+			bs, _ = core.NewServiceCodec(core.WithSimple(c.Simple), core.WithDebug(true)).Encode(core.NewPanicError("hello-world-panic"), core.NewServiceContext(plain))
+		case "Codec:senc-unencodable":
+			bs, _ = core.NewServiceCodec(core.WithSimple(c.Simple)).Encode(make(chan int), core.NewServiceContext(plain))
+		case "Codec:cenc":
+			bs, _ = core.NewClientCodec(core.WithSimple(c.Simple)).Encode("hello", []interface{}{"hello-world", 12345}, core.NewClientContext())
+		case "Codec:marshal":
+			bs, _ = io.Formatter{Simple: c.Simple}.Marshal([]interface{}{"hello-world", 12345})
+		default:
+			panic("c14: bad codec api " + c.API)
+		}
+		got = func() string { return hex.EncodeToString(bs) }
+		obs.Before = got()
+		churn := func() {
+			for i := 0; i < 40; i++ {
+				_, _ = io.Marshal(strings.Repeat("X", 64+i))
+				_, _ = core.NewServiceCodec().Encode(strings.Repeat("Y", 80), core.NewServiceContext(plain))
+				_, _ = core.NewServiceCodec().Encode(errors.New(strings.Repeat("Z", 90)), core.NewServiceContext(plain))
+				_, _ = core.NewClientCodec().Encode("f", []interface{}{strings.Repeat("W", 70)}, core.NewClientContext())
+			}
+		}
+		churn()
+		var wg sync.WaitGroup
+		for g := 0; g < 4; g++ {
+			wg.Add(1)
+			go func() { defer wg.Done(); churn() }()
+		}
+		wg.Wait()
+		obs.After = got()
+		return
+	}
 	switch c.API {
 	case "EncoderBuffer", "EncoderUnsafeString", "EncoderBytes", "EncoderString":
 		enc := io.NewEncoder(nil)
